@@ -2,10 +2,16 @@ import AiocoapModel.Tcp.Frame
 /-!
 # The receiving side of a CoAP-over-TCP connection
 
-Model of `TcpConnection.data_received` (tcp.py:178-224), `_abort_with`/`_send_message`
+Model of `TcpConnection.data_received` (tcp.py:178-229), `_abort_with`/`_send_message`
 (tcp.py:117-133), `connection_made`/`connection_lost` as far as they write or report
-(tcp.py:137-176), `_TCPPooling._dispatch_incoming`/`_dispatch_error` (tcp.py:264-286) and
-`RFC8323Remote._send_initial_csm`/`_process_signaling`/`abort` (rfc8323common.py:122-190).
+(tcp.py:137-176), `_TCPPooling._dispatch_incoming`/`_dispatch_error` (tcp.py:269-291) and
+`RFC8323Remote._send_initial_csm`/`_process_signaling`/`abort` (rfc8323common.py:122-194), and
+`_TCPPooling.send_message` (tcp.py:251-265).
+
+This is the code after the fix "stop processing a TCP connection's data once it is aborted or
+released": `_process_signaling` returns right after `self.abort(...)`, a CSM is taken over into
+`_remote_settings` only when all its options were accepted, and `data_received` returns when the
+transport `is_closing()` after a signalling message.
 
 Observable outputs are, in order: messages handed to the token manager, bytes written to the
 stream transport, `transport.close()`, and errors handed to the token manager (which fails the
@@ -13,7 +19,7 @@ pending requests of that remote with them).
 -/
 namespace Aiocoap.Tcp
 
-/-- `_remote_settings` once a CSM was received (rfc8323common.py:135-146) -/
+/-- `_remote_settings` once a CSM was received (rfc8323common.py:136-153) -/
 structure Settings where
   maxMessageSize : Option Nat := none      -- "max-message-size"
   blockwise : Bool := false                -- "block-wise-transfer"
@@ -81,7 +87,7 @@ def sendMessage (m : Msg) : List Out :=
   | some b => [.write b]
   | none => [.sendError]
 
-/-- the Abort message built by `abort(errormessage, bad_csm_option)` (rfc8323common.py:182-190):
+/-- the Abort message built by `abort(errormessage, bad_csm_option)` (rfc8323common.py:186-194):
 payload = the text, and option 2 (Bad-CSM-Option, a UintOption) when given -/
 def abortMsg (text : Bytes) (bad : Option Nat) : Msg :=
   { code := codeAbort, token := [],
@@ -103,49 +109,51 @@ def initialCsm (maxSize : Nat) : Msg :=
 def connectionMade (maxSize : Nat) : Conn × List Out :=
   ({ maxSize := maxSize }, sendMessage (initialCsm maxSize))
 
-/-- the option loop of a CSM (rfc8323common.py:137-150).  `abort` does not raise, so the loop
-goes on after a bad option. -/
-def csmOpts (s : Settings) : List Opt → Settings × List Out
-  | [] => (s, [])
+/-- the option loop of a CSM (rfc8323common.py:138-153) over the local copy `remote_settings`:
+the settings after the loop, or — `some n` — the number of the first critical option, on which
+the code calls `abort(..., bad_csm_option=n)` and returns (the local copy is then dropped) -/
+def csmOpts (s : Settings) : List Opt → Settings × Option Nat
+  | [] => (s, none)
   | o :: os =>
     if o.num = 2 then csmOpts { s with maxMessageSize := some (beToNat o.val) } os
     else if o.num = 4 then csmOpts { s with blockwise := true } os
-    else if o.num % 2 = 1 then                            -- `opt.number.is_critical()`
-      let r := csmOpts s os
-      (r.1, abortOuts txtOptNotSupported (some o.num) ++ r.2)
+    else if o.num % 2 = 1 then (s, some o.num)            -- `opt.number.is_critical()`
     else csmOpts s os
 
-/-- the option loop of Ping/Pong/Release/Abort (rfc8323common.py:153-157): one abort per
-critical option -/
-def otherOpts : List Opt → List Out
-  | [] => []
-  | o :: os =>
-    if o.num % 2 = 1 then abortOuts txtUnknownCritical none ++ otherOpts os
-    else otherOpts os
+/-- the option loop of Ping/Pong/Release/Abort (rfc8323common.py:156-161): is there a critical
+option (the loop aborts and returns at the first one) -/
+def hasCritical : List Opt → Bool
+  | [] => false
+  | o :: os => if o.num % 2 = 1 then true else hasCritical os
 
 /-- `_process_signaling(msg)` including the `except CloseConnection` of `data_received`
-(tcp.py:212-218): `_dispatch_error(self, e.args[0])`, `transport.close()` -/
+(tcp.py:212-217): `_dispatch_error(self, e.args[0])`, `transport.close()` -/
 def processSignaling (c : Conn) (m : Msg) : Conn × List Out :=
   if m.code = codeCSM then
-    let r := csmOpts (c.csm.getD {}) m.opts
-    (({ c with csm := some r.1 } : Conn).note r.2, r.2)
-  else if m.code = codePing then
-    let outs := otherOpts m.opts ++ sendMessage { code := codePong, token := m.token, opts := [], payload := [] }
-    (c.note outs, outs)
-  else if m.code = codePong then
-    let outs := otherOpts m.opts
-    (c.note outs, outs)
-  else if m.code = codeRelease then
-    let outs := otherOpts m.opts ++ [.failPending .released, .close]
-    (c.note outs, outs)
-  else if m.code = codeAbort then
-    let outs := otherOpts m.opts ++ [.failPending .aborted, .close]
-    (c.note outs, outs)
+    match csmOpts (c.csm.getD {}) m.opts with
+    | (s, none) => ({ c with csm := some s }, [])          -- rfc8323common.py:153
+    | (_, some n) =>                                       -- abort; return
+      let outs := abortOuts txtOptNotSupported (some n)
+      (c.note outs, outs)
+  else if m.code = codePing ∨ m.code = codePong ∨ m.code = codeRelease ∨ m.code = codeAbort then
+    if hasCritical m.opts then                             -- abort; return
+      let outs := abortOuts txtUnknownCritical none
+      (c.note outs, outs)
+    else if m.code = codePing then
+      let outs := sendMessage { code := codePong, token := m.token, opts := [], payload := [] }
+      (c.note outs, outs)
+    else if m.code = codePong then (c, [])
+    else if m.code = codeRelease then
+      let outs := [.failPending .released, .close]
+      (c.note outs, outs)
+    else
+      let outs := [.failPending .aborted, .close]
+      (c.note outs, outs)
   else
     let outs := abortOuts txtUnknownSignalling none
     (c.note outs, outs)
 
-/-- `_dispatch_incoming` (tcp.py:264-273, after the fix: an empty message returns) -/
+/-- `_dispatch_incoming` (tcp.py:269-278, after the fix: an empty message returns) -/
 def dispatchIncoming (m : Msg) : List Out :=
   if m.code = 0 then []
   else if 64 ≤ m.code ∧ m.code < 192 then [.response m]   -- `msg.code.is_response()`
@@ -157,7 +165,7 @@ def Conn.consume (c : Conn) (n : Nat) : Conn := { c with spool := c.spool.drop n
 /-- one iteration of the `while True` loop of `data_received` -/
 inductive Step
   | wait                                   -- `break`: more data needed
-  | stop (c : Conn) (outs : List Out)      -- `abort(...); return`
+  | stop (c : Conn) (outs : List Out)      -- `return`: after `abort(...)`, or the transport is closing
   | next (c : Conn) (outs : List Out)      -- the loop continues
 deriving Repr
 
@@ -179,14 +187,15 @@ def step (c : Conn) : Step :=
         let c1 : Conn := c.consume msglen                 -- tcp.py:210
         if m.code ≥ 224 then                               -- `msg.code.is_signalling()`
           let r := processSignaling c1 m
-          .next r.1 r.2
-        else if c1.csm.isNone then                         -- tcp.py:220
+          if r.1.closed then .stop r.1 r.2                 -- tcp.py:218 `is_closing()`: return
+          else .next r.1 r.2                               -- tcp.py:223 `continue`
+        else if c1.csm.isNone then                         -- tcp.py:225
           let o := abortOuts txtNoCsm none
           .stop (c1.note o) o
         else .next c1 (dispatchIncoming m)
 
-/-- the `while True` loop; the `Bool` tells whether `data_received` returned from inside an
-abort.  Fuel: every continuing iteration removes a frame (≥ 2 bytes) from the spool, so
+/-- the `while True` loop; the `Bool` tells whether `data_received` left the loop by `return`
+(after an abort of its own, or because the transport is closing after a signalling message).  Fuel: every continuing iteration removes a frame (≥ 2 bytes) from the spool, so
 `spool.length + 1` always suffices (`Proofs/Tcp/Conn.lean`, `drainF_fuel`). -/
 def drainF : Nat → Conn → Conn × List Out × Bool
   | 0, c => (c, [], false)
@@ -226,9 +235,31 @@ def session (maxSize : Nat) (chunks : List Bytes) : Conn × List Out :=
   let r := feedAll r0.1 chunks
   (r.1, r0.2 ++ r.2 ++ (if r.1.closed then connectionLost else []))
 
-/-- outputs up to and including the first `close` -/
-def uptoClose : List Out → List Out
-  | [] => []
-  | o :: os => if o.isClose then [o] else o :: uptoClose os
+-- ---------------------------------------------------------------------------------------------
+-- the sending side of the token interface
+
+/-- `message.opt.no_response or 0` (options.py:44-62, `_single_value_view`): the value of the
+first No-Response option (number 258, a uint), 0 when there is none -/
+def noResponseOf : List Opt → Nat
+  | [] => 0
+  | o :: os => if o.num = 258 then beToNat o.val else noResponseOf os
+
+/-- `_TCPPooling.send_message(message, messageerror_monitor)` (tcp.py:251-265, after the fix
+"keep the No-Response option on requests sent over TCP").  On a response the No-Response option
+is aiocoap's internal copy of the request's option (interfaces.py, `TokenInterface.send_message`):
+the response is dropped when bit `class - 1` of the value is set (`(nr or 0) & (1 << class_ - 1)`),
+otherwise it is sent with the option removed (`message.opt.no_response = None` deletes every
+option 258).  Anything else — requests — is handed to `_send_message` as it is. -/
+def poolSend (m : Msg) : List Out :=
+  if 64 ≤ m.code ∧ m.code < 192 then                      -- `message.code.is_response()`
+    if (noResponseOf m.opts).testBit (m.code / 32 - 1) then []
+    else sendMessage { m with opts := m.opts.filter (fun o => o.num != 258) }
+  else sendMessage m
+
+/-- What of the connection state can still have any effect.  While the transport is open that is
+everything.  Once `close()` was called, `data_received` is never called again and nothing else
+reads `_spool`: the bytes left in it are dead.  (They do depend on the segmentation: the spool
+holds what was delivered up to the close, and a closed transport delivers nothing more.) -/
+def Conn.live (c : Conn) : Conn := if c.closed then { c with spool := [] } else c
 
 end Aiocoap.Tcp
